@@ -13,11 +13,13 @@ def tail(s, n=2500):
 
 def run(ctx):
     ctx.rule = ("(a) decision function: all combinations of offer/existing fields over small code sets, run on the real "
-                "Negotiation.compareOfferAndExisting and on the translated function; (b) traces: seeded schedules of two real "
+                "Negotiation.compareOfferAndExisting and on the translated function; (b) traces: 18 scripted + seeded schedules of two real "
                 "Tubs (lookups with 1-3 hints, block deliveries, asynchronous cuts, close notifications, restarts, connector "
-                "time-outs), state compared with the Coq model after every step; non-trivial = a trace in which a connection "
-                "was established and (a cut, a restart, a rejection or a displacement) happened; (c) oracle runs: byte- and "
-                "block-granular random schedules to quiescence with cross-connects, parallel hints, cuts and restarts")
+                "time-outs, instant retries armed for the next errback), state compared with the Coq model after every step; non-trivial = "
+                "a trace in which a connection was established and (a cut, a restart, a time-out, a retry or a rejection) happened; "
+                "(c) oracle runs: a fixed battery (independent of the seed), the corpus and seeded runs: byte- and block-granular "
+                "schedules to quiescence with cross-connects, parallel hints, cuts, restarts, black holes, one-sided cuts with redial "
+                "from the side that noticed (both dial directions, several rounds), lookups issued re-entrantly from callbacks/errbacks")
     ctx.assumptions = [
         "TLS is a no-op startTLS; peerFromTransport returns the peer Tub's certificate",
         "the model delivers whole negotiation blocks; the GET/101 exchange is folded into the dial step (byte-granular "
@@ -127,7 +129,7 @@ def hobs(obs):
 
 def coq_op(o):
     t = {"M": "TM", "S": "TS"}
-    if o[0] in ("GetRef", "DialHint", "Restart", "Timeout"):
+    if o[0] in ("GetRef", "DialHint", "Restart", "Timeout", "ArmRetry"):
         return "%s %s" % (o[0], t[o[1]])
     if o[0] == "Cut":
         return "Cut %d" % o[1]
@@ -162,15 +164,28 @@ def correspond_traces(ctx, impl):
                 continue
             w.stop()
             traces.append(groups)
+            ctx.hist("trace_reentrant_lookups", min(w.reentered, 3))
             kinds = [g[2][0] for g in groups]
             established = any(row[0] >= 0 for g in groups for row in g[1][:2])
-            eventful = any(k in ("cut", "restart", "timeout") for k in kinds) or \
+            eventful = any(k in ("cut", "restart", "timeout", "armretry") for k in kinds) or \
                 any(3 in row[4:] for g in groups for row in g[1][2:])
             ctx.case([[g[0] for g in groups]], nontrivial=established and eventful)
             ctx.hist("trace_len", n)
             ctx.hist("trace_style", style)
             for k in kinds:
                 ctx.hist("trace_op", k)
+    with quiet():
+        try:
+            fixed = impl.scripted_traces()
+        except Exception as e:
+            import traceback
+            ctx.fail("oracle/exception-escaped", "an exception escaped from the real Tubs while running a scripted schedule: %r" % (e,),
+                     replay=dict(tb=traceback.format_exc()))
+            fixed = []
+    for groups in fixed:
+        ctx.case([[g[0] for g in groups]], nontrivial=True)
+        ctx.hist("trace_style", "scripted")
+    traces = fixed + traces
     if traces:
         ctx.sample(dict(kind="trace", ops=[g[0] for g in traces[0]][:12]))
     nbad = 0
